@@ -3,17 +3,17 @@
 # then copy it to /verif/seeded/<ID>/.   usage: tools/seedconfirm.sh <ID> [extra test packages…]
 set -u
 ID=$1; shift
-S=/tmp/seed/$ID; W=$S/repo
+R=${SEEDROOT:-/tmp/seed}; S=$R/$ID; W=$S/repo; SUF=${SEEDSUF:-}
 export GOFLAGS=-mod=mod GOPROXY=off GOSUMDB=off GOTOOLCHAIN=local
 cd $W || exit 2
 demo=$(python3 -c "import json;print(json.load(open('$S/meta.json'))['demo_cmd'])")
 echo "== demo_cmd: $demo"
 git -C $W diff --stat -- . ':!*_test.go' | tail -3
 echo "== build"; go build ./... || { echo BUILD-FAILS; exit 1; }
-echo "== demo WITH change (expect FAIL)"; sh -c "$demo" >/tmp/seed/$ID/with.log 2>&1; echo "exit=$?"; tail -5 /tmp/seed/$ID/with.log
+echo "== demo WITH change (expect FAIL)"; sh -c "$demo" >$S/with.log 2>&1; echo "exit=$?"; tail -5 $S/with.log
 echo "== demo WITHOUT change (expect ok)"
 git -C $W apply -R $S/patch.diff || { echo CANNOT-REVERT; exit 1; }
-sh -c "$demo" >/tmp/seed/$ID/without.log 2>&1; echo "exit=$?"; tail -3 /tmp/seed/$ID/without.log
+sh -c "$demo" >$S/without.log 2>&1; echo "exit=$?"; tail -3 $S/without.log
 git -C $W apply $S/patch.diff
 pk=$(git -C $W diff --name-only -- . ':!*_test.go' | xargs -n1 dirname | sort -u | sed 's|^|./|' | tr '\n' ' ')
 echo "== tests of touched packages (demo test moved aside): $pk $*"
@@ -21,4 +21,4 @@ mkdir -p $S/aside; for f in $(git -C $W ls-files --others --exclude-standard | g
 go test -vet=off -count=1 $pk "$@" 2>&1 | grep -v "no test files" | tail -15
 # restore demo tests
 if [ -f $S/aside/list ]; then for f in $(cat $S/aside/list); do mv $S/aside/$(echo $f | tr / _) $W/$f; done; rm -f $S/aside/list; fi
-mkdir -p /verif/seeded/$ID; cp $S/patch.diff $S/meta.json /verif/seeded/$ID/; rm -rf /verif/seeded/$ID/demo; cp -r $S/demo /verif/seeded/$ID/demo
+mkdir -p /verif/seeded/$ID$SUF; cp $S/patch.diff $S/meta.json /verif/seeded/$ID$SUF/; rm -rf /verif/seeded/$ID$SUF/demo; cp -r $S/demo /verif/seeded/$ID$SUF/demo
